@@ -29,6 +29,7 @@ type ClientInfo struct {
 	Session    broker.Session
 	Publishes  []*packet.Message // messages handed to Backend.Publish on behalf of this client (copies)
 	PubSeqs    []int64
+	PubErrs    []error // outcome of each of those calls (nil = the backend took the message)
 	Received   []packet.Generic // packets the broker reports as received (Log PacketReceived)
 	Disconnect bool             // broker logged a received DISCONNECT
 	Hooks      []string         // hook trace
@@ -67,6 +68,8 @@ type MonBackend struct {
 	OnSetupReturn func(ci *ClientInfo)
 	// SlowTerminate delays Terminate (KillTimeout scenarios).
 	SlowTerminate time.Duration
+	// LateGate, when set, holds every late acknowledgement until it is closed.
+	LateGate chan struct{}
 	// CloseAt: call Inner.Close at the N-th hook call overall (0 = never).
 	CloseAt int
 
@@ -77,7 +80,8 @@ type MonBackend struct {
 	ncalls  int
 	faults  []HookFault
 	names   map[interface{}]string // conn -> name
-	lateWG  sync.WaitGroup
+	lateMu  sync.Mutex
+	lateN   int
 	// AckInvoked records (client, packet id unknown here) -> seq of ack invocation, in order
 	Acks []AckEvent
 }
@@ -148,13 +152,30 @@ func (m *MonBackend) Snapshot(ci *ClientInfo) ClientInfo {
 	cp := *ci
 	cp.Publishes = append([]*packet.Message(nil), ci.Publishes...)
 	cp.PubSeqs = append([]int64(nil), ci.PubSeqs...)
+	cp.PubErrs = append([]error(nil), ci.PubErrs...)
 	cp.Received = append([]packet.Generic(nil), ci.Received...)
 	cp.Hooks = append([]string(nil), ci.Hooks...)
 	return cp
 }
 
 // WaitLate waits for late acks still in flight.
-func (m *MonBackend) WaitLate() { m.lateWG.Wait() }
+func (m *MonBackend) WaitLate() {
+	for {
+		m.lateMu.Lock()
+		n := m.lateN
+		m.lateMu.Unlock()
+		if n == 0 {
+			return
+		}
+		time.Sleep(50 * time.Microsecond)
+	}
+}
+
+func (m *MonBackend) lateAdd(d int) {
+	m.lateMu.Lock()
+	m.lateN += d
+	m.lateMu.Unlock()
+}
 
 func (m *MonBackend) perturb() {
 	if m.Perturb == nil {
@@ -318,8 +339,16 @@ func (m *MonBackend) Publish(c *broker.Client, msg *packet.Message, ack broker.A
 	m.mu.Lock()
 	ci.Publishes = append(ci.Publishes, cp)
 	ci.PubSeqs = append(ci.PubSeqs, seq)
+	ci.PubErrs = append(ci.PubErrs, nil)
+	pubIdx := len(ci.PubErrs) - 1
 	m.mu.Unlock()
+	setErr := func(e error) {
+		m.mu.Lock()
+		ci.PubErrs[pubIdx] = e
+		m.mu.Unlock()
+	}
 	if b != nil {
+		setErr(b)
 		m.leave("Publish", c, b)
 		return b
 	}
@@ -336,15 +365,27 @@ func (m *MonBackend) Publish(c *broker.Client, msg *packet.Message, ack broker.A
 		case AckSync:
 			wrapped = logged
 		case AckLate:
+			// accounted from the hand-over on, so that WaitLate also covers the
+			// time before the inner backend gets to call the closure
+			m.lateAdd(1)
+			lateCalled := false
 			wrapped = func() {
-				m.lateWG.Add(1)
+				lateCalled = true
 				go func() {
-					defer m.lateWG.Done()
+					defer m.lateAdd(-1)
 					m.perturb()
+					if m.LateGate != nil {
+						<-m.LateGate
+					}
 					time.Sleep(200 * time.Microsecond)
 					logged()
 				}()
 			}
+			defer func() {
+				if !lateCalled {
+					m.lateAdd(-1)
+				}
+			}()
 		case AckNever:
 			wrapped = func() {}
 		}
@@ -352,6 +393,9 @@ func (m *MonBackend) Publish(c *broker.Client, msg *packet.Message, ack broker.A
 	err := m.Inner.Publish(c, msg, wrapped)
 	if err == nil && a != nil {
 		err = a
+	}
+	if err != nil {
+		setErr(err)
 	}
 	m.leave("Publish", c, err)
 	return err
